@@ -4,9 +4,9 @@
    Key paths handed to the scalar step are non-empty by construction (init ++ [last]),
    which is what the Go code's keyPath[len(keyPath)-1] relies on. *)
 From Model Require Export Tables.
-From Gen Require Import Limits.
+From Gen Require Import Probed.
 
-(* not written down here: measured on the compiled program on every run (Gen/Limits.v) *)
+(* not written down here: measured on the compiled program on every run (Gen/Probed.v) *)
 Definition ip_placeholder : string := ip_placeholder_dumped.
 
 Record consts := {
